@@ -1,5 +1,5 @@
 From Coq Require Import List Arith Bool String.
-From Wire Require Import Sets Acyclic Solve Names Front Exec Model Emit Cli CopyAst ModelThms.
+From Wire Require Import Sets Acyclic Solve Names Front Exec Model Emit Cli CopyAst ModelThms Bridge.
 Import ListNotations.
 
 (* The property theorems.  This file contains nothing but statements closed by [exact lemma] and the
@@ -248,3 +248,61 @@ Theorem C16_collision_order_independent : forall bad bad' name,
   Permutation.Permutation bad bad' -> disamb_in bad name = disamb_in bad' name.
 Proof. exact disamb_in_perm. Qed.
 Print Assumptions C16_collision_order_independent.
+
+(* ------------------------------------------------------------------ C02 / C06 on the concrete planner *)
+(* Hypotheses: wfb pm args = true is the boolean well-formedness certificate that the correspondence run
+   evaluates on the provider map of every accepted case (each entry's concrete type is its own key with the same
+   dependencies; parameters sit at their types; keys and parameter types pairwise distinct); verify = [] is the
+   cycle check's own verdict (Model.process_set only returns maps that passed it). *)
+Theorem C02_wiring : forall tyorder pm root args out,
+  wfb pm args = true -> verify tyorder pm = [] -> incl (keys pm) tyorder ->
+  forall cs, solve pm root args out = inl cs ->
+  exists s i v, cs = map (decorate pm) (calls s) /\
+    lookup (index s) out = Some (Slot i) /\
+    nth_error (exec_calls (env0 (List.length args)) (calls s)) i = Some v /\
+    val (core_pm pm) out v.
+Proof. exact solve_wiring. Qed.
+Print Assumptions C02_wiring.
+
+(* the explicit-stack loop computes what the recursive planner computes, for whatever fuel completes it *)
+Theorem C02_machine_refines_visit : forall pm given f, Solve.P pm given f.
+Proof. exact solve_sim. Qed.
+Print Assumptions C02_machine_refines_visit.
+
+Theorem C06_missing : forall tyorder pm args out,
+  wfb pm args = true -> verify tyorder pm = [] -> incl (keys pm) tyorder ->
+  forall s usedk, machine2 (core_pm pm) (List.length args) (solve_fuel pm) [out] (init_state args) [] = Some (s, usedk) ->
+  (forall t, In t (errs s) <-> reach (core_pm pm) out t /\ core_pm pm t = None) /\ NoDup (errs s).
+Proof. exact solve_missing. Qed.
+Print Assumptions C06_missing.
+
+Theorem C06_rejected_names_missing : forall tyorder pm root args out,
+  wfb pm args = true -> verify tyorder pm = [] -> incl (keys pm) tyorder ->
+  forall ds, solve pm root args out = inr ds ->
+  ds = [DFuel] \/
+  (exists l, ds = map DNoProvider l /\ l <> [] /\ NoDup l /\ forall t, In t l <-> reach (core_pm pm) out t /\ core_pm pm t = None) \/
+  (forall t, reach (core_pm pm) out t -> core_pm pm t <> None).
+Proof. exact solve_rejects_missing. Qed.
+Print Assumptions C06_rejected_names_missing.
+
+Theorem C06_accepted_is_complete : forall tyorder pm root args out,
+  wfb pm args = true -> verify tyorder pm = [] -> incl (keys pm) tyorder ->
+  forall cs, solve pm root args out = inl cs -> forall t, reach (core_pm pm) out t -> core_pm pm t <> None.
+Proof. exact solve_accepts_complete. Qed.
+Print Assumptions C06_accepted_is_complete.
+
+(* under acyclicity the planner terminates: fuel |keys|+2 suffices for the recursive form, and the loop reaches
+   the same state *)
+Theorem C07_solve_terminates : forall pm given (keys : list nat),
+  (forall t pv, pm t = Some pv -> In t keys) -> forall gtypes : list nat, given = List.length gtypes ->
+  acyclic pm -> forall out s0, args_indexed pm s0 ->
+  exists s' k, visit pm given (List.length keys + 2) out s0 = Some s' /\
+               forall fuel, machine pm given (k + fuel) [out] s0 = machine pm given fuel [] s'.
+Proof. exact solve_terminates. Qed.
+Print Assumptions C07_solve_terminates.
+
+(* the planner's dependency relation (alias edges included) is acyclic whenever the cycle check accepted *)
+Theorem C07_checker_graph_covers_planner_graph : forall pm args,
+  wfb pm args = true -> (~ exists u, path (succ_of pm) u u) -> acyclic (core_pm pm).
+Proof. exact acyclic_core. Qed.
+Print Assumptions C07_checker_graph_covers_planner_graph.
